@@ -90,6 +90,9 @@ func execOp(op string, o *proto.Out) string {
 	if len(w) > 0 && w[0] == "txn" {
 		return execTxn(op, w, o)
 	}
+	if len(w) > 0 && w[0] == "pol" {
+		return execPol(op, w, o)
+	}
 	if len(w) > 0 && w[0] == "multi" {
 		return execMulti(op, w, o)
 	}
@@ -168,8 +171,11 @@ func execTxn(op string, w []string, o *proto.Out) string {
 		return "bad-op"
 	}
 	o.Count("txn")
-	reqBody, respBody := proto.Dec(rq), proto.Dec(rs)
-	ro, so, err := harTxn(ex, reqBody, respBody)
+	tr := parseTransfer(w)
+	reqHeaders, respHeaders := map[string]string{"x-verif": "1"}, map[string]string{"x-verif": "1"}
+	reqBody, reqSent := wire(proto.Dec(rq), tr.padReq, tr.gzReq, reqHeaders)
+	respBody, respSent := wire(proto.Dec(rs), tr.padResp, tr.gzResp, respHeaders)
+	ro, so, err := harTxnWire(ex, reqSent, respSent, reqHeaders, respHeaders)
 	if err != nil {
 		panic(err)
 	}
